@@ -116,6 +116,22 @@ def eval_entity(q, world, inst, share_terms=False):
         return exc_obs(e)
 
 
+def eval_entity_after_partial(q, world, inst, share_terms=False, take=2):
+    """build an entity query; take `take` results of a FIRST evaluation and close the iterator, evaluate it fully, then
+    once more; returns the two full results"""
+    try:
+        obj, b = Q.build(q, world, inst, share_terms=share_terms)
+        it = obj.evaluate()
+        for _ in range(take):
+            next(it, None)
+        it.close()
+        return [list(obj.evaluate()), list(obj.evaluate())]
+    except W.InjectedFault:
+        raise
+    except Exception as e:
+        return [exc_obs(e), None]
+
+
 def eval_rows(q, world, inst):
     """build and fully evaluate a set_of query; returns list of tuples (one value per selected term) or ('EXC', ...)"""
     try:
